@@ -51,6 +51,8 @@ ASSUMPTIONS = [
     "repository tests under the monitors: only 'a value drawn while an spsdk module was being imported serves as AES-CTR key "
     "or nonce' and 'M-RNG returned the same >= 8-byte value twice' are judged (no artifact windows there; tests share keys on purpose)",
     "the legacy BootImgRT.add_image(dek_key=b'') is judged because its docstring promises a random key for empty bytes",
+    "rule 5 (no replay of the random source inside one interpreter) compares 8-byte windows of all draws >= 16 bytes at every "
+    "alignment; a chance hit has probability ~ n^2 / 2^64 and is ignored",
 ]
 REQUIRED_COUNTERS = ["mrng_draws", "mctr_calls", "secrets_judged", "rule1_pairs", "rule2_draws", "rule3_secrets",
                      "rule4_blocks", "restarts", "xproc_pairs", "fam_sb2", "fam_mbi", "fam_otfad", "fam_iee", "fam_bee",
